@@ -135,6 +135,13 @@ func c06Check(c *oracleCtx, src string, indents []string, steer bool) {
 				cfg := "p:" + in + ":" + semi
 				out := oaCompile(cfg, prog)
 				outs[cfg] = out
+				// the indentation option and the semicolon option are independent: their order in the call is irrelevant
+				if alt := compilerOfOrder(cfg, !compilerSemiFirst(cfg)).Compile(prog).Code; alt != out {
+					i := inp(cfg, out)
+					i["other-order"] = oaClip(alt, 600)
+					c.violation("option-order", "WithPrettyPrint(indent option, WithSemi) and WithPrettyPrint(WithSemi, indent option) give different output: an indentation option changes more than leading white space", i)
+					continue
+				}
 				cls := c06Class(src, cfg, prog)
 				if cls != "" && steer {
 					c.bump("steered-away:" + cls)
